@@ -182,6 +182,21 @@ impl Pooled for C04 {
                 }
             }
         }
+        // (B1b) string-valued literals (plain, language-tagged, custom datatype) whose text needs escaping in the
+        // short or long quoted forms: every text of <= k symbols over [a " ' \ LF CR TAB]
+        {
+            let alpha = ["a", "\"", "'", "\\", "\n", "\r", "\t"];
+            words_upto(alpha.len(), tier.pick(3, 4), &mut |w| {
+                let lex: String = w.iter().map(|i| alpha[*i]).collect();
+                for lit in [ATerm::lit(&lex), ATerm::lang(&lex, "en"), ATerm::typed(&lex, &format!("{EX}dt"))] {
+                    let q: AQuad = ([ex("s"), ex("p"), lit], None);
+                    for pretty in [true, false] {
+                        f(&Case { trig: false, pretty, pm: 0, indent: 0, quads: vec![q.clone()] });
+                    }
+                    f(&Case { trig: true, pretty: true, pm: 1, indent: 1, quads: vec![(q.0.clone(), Some(ex("g")))] });
+                }
+            });
+        }
         // (B2) IRIs whose local part may need escaping, against every prefix map and indentation
         let mut locals: Vec<String> = vec![];
         words_upto(LOCAL_ALPHA.len(), tier.pick(2, 3), &mut |w| locals.push(w.iter().map(|i| LOCAL_ALPHA[*i]).collect()));
@@ -387,11 +402,12 @@ pub fn run(tier: Tier) -> Report {
     rep.violations = o.violations;
     rep.caps = o.caps;
     rep.rule = format!(
-        "(A) every dataset of <= {} triples over a 36-triple universe (subjects _:a _:b ex:x, predicates rdf:first rdf:rest ex:p, objects _:a _:b rdf:nil ex:x) in the default graph, every dataset of <= {} quads over a 720-quad universe (adds _:c, quoted triples as subject/object, rdf:type, rdf:nil as predicate, literals, graph names default / IRI / blank), every dataset of <= {} quads of the small universe over two graphs, plus a 140-triple medium universe (<= 2 / 3 triples); each in Turtle and TriG, pretty and streaming mode; (B) literals of xsd:integer/decimal/double/boolean/string with every lexical form of length <= {} over [0 1 . e E + - x]; IRIs ns+local for every local part of length <= {} over [a 1 . - _ : % / # ~ é] under 5 prefix maps (default, ex:, empty prefix, overlapping namespaces, none); 4 indentation strings; oracle: the output parses with the toolkit's Turtle/TriG parser into a dataset isomorphic (brute-force bijection search) to the input, no duplicate statement; non-trivial = output uses an abbreviation ([], (), {{| |}}, GRAPH, 'a')",
+        "(A) every dataset of <= {} triples over a 36-triple universe (subjects _:a _:b ex:x, predicates rdf:first rdf:rest ex:p, objects _:a _:b rdf:nil ex:x) in the default graph, every dataset of <= {} quads over a 720-quad universe (adds _:c, quoted triples as subject/object, rdf:type, rdf:nil as predicate, literals, graph names default / IRI / blank), every dataset of <= {} quads of the small universe over two graphs, plus a 140-triple medium universe (<= 2 / 3 triples); each in Turtle and TriG, pretty and streaming mode; (B) literals of xsd:integer/decimal/double/boolean/string with every lexical form of length <= {} over [0 1 . e E + - x]; plain / tagged / datatyped strings with every text of length <= {} over [a \" ' \\ LF CR TAB]; IRIs ns+local for every local part of length <= {} over [a 1 . - _ : % / # ~ é] under 5 prefix maps (default, ex:, empty prefix, overlapping namespaces, none); 4 indentation strings; oracle: the output parses with the toolkit's Turtle/TriG parser into a dataset isomorphic (brute-force bijection search) to the input, no duplicate statement; non-trivial = output uses an abbreviation ([], (), {{| |}}, GRAPH, 'a')",
         tier.pick(4, 6),
         tier.pick(1, 2),
         tier.pick(3, 4),
         tier.pick(3, 5),
+        tier.pick(3, 4),
         tier.pick(2, 3)
     );
     rep.bounds = json!({"reduced_universe_quads": tier.pick(4, 6), "full_universe_quads": tier.pick(1, 2), "medium_universe_quads": tier.pick(2, 3), "two_graph_quads": tier.pick(3, 4), "literal_length": tier.pick(3, 5), "local_length": tier.pick(2, 3)});
